@@ -116,6 +116,8 @@ class SeqCheck:
         if getattr(self, 'with_async', False):
             # the async wrappers (incl. AsyncDetached) run the same synchronous core: part of this property's footprint
             bindir, alog = ctx.build_harness(('asyncrun',))
+            if bindir is None:
+                ctx.violation('the async harness does not build against the current /repo tree (tie broken)', '## cargo build failed\n' + alog[-4000:], no_input=True)
             if bindir is not None:
                 n = 500 if ctx.tier == 'quick' else 10000
                 acf = corpus_file('async')
@@ -324,6 +326,7 @@ def c18_extra(ctx, seqrun, stats, divs):
     c18_splitprobe(ctx, seqrun, stats, divs)
     # zero-sized item types are outside the Model: constructors checked by the property-level probe (length, initial availabilities)
     bindir, log = ctx.build_harness(('zstprobe',))
+    if bindir is None: ctx.violation('zstprobe does not build against the current /repo tree (tie broken)', '## cargo build failed\n' + log[-4000:], no_input=True)
     if bindir is not None:
         rc, out = common.sh([os.path.join(bindir, 'zstprobe'), str(ctx.seed), '200' if ctx.tier == 'quick' else '5000'], timeout=600)
         mm = re.search(r'MISMATCH (.*)', out)
@@ -369,6 +372,7 @@ class VariantCheck(SeqCheck):
         collect = []
         stats, divs = seqsuite.run(ctx, seqrun, self.suites(ctx), collect=collect)
         bindir, alog = ctx.build_harness(('asyncrun',))
+        if bindir is None: ctx.violation('the async harness does not build against the current /repo tree (tie broken)', '## cargo build failed\n' + alog[-4000:], no_input=True)
         if bindir is not None:
             astats, d3 = seqsuite.run(ctx, os.path.join(bindir, 'asyncrun'), [('arand', ['arand', ctx.seed, 600 if ctx.tier == 'quick' else 12000, 20, 100])], mode='async')
             divs += d3; stats.steps += astats.steps; stats.histories += astats.histories; stats.distinct |= astats.distinct
@@ -457,7 +461,7 @@ class SendCheck:
         mismatch = []
         if mm is not None:
             for r in rows:
-                if r[0] in ('Ref', 'Foreign', 'Fut', 'MutRef'): continue
+                if r[0] in ('Ref', 'Foreign', 'Fut', 'MutRef', 'Carrier'): continue
                 exp = mm[(f'{r[0]} {r[1]}', r[2], r[3], r[4])]
                 if exp != (r[5], r[6]): mismatch.append((r, exp))
         if bad:
@@ -819,6 +823,7 @@ class ConcCheck(SeqCheck):
         if ctx.prop == 'C07':
             # a stack buffer boxed by a by-value async split is released like a heap buffer: once, after its last iterator (splitprobe)
             bindir, log = ctx.build_harness(('splitprobe',))
+            if bindir is None: ctx.violation('splitprobe does not build against the current /repo tree (tie broken)', '## cargo build failed\n' + log[-4000:], no_input=True)
             if bindir is not None:
                 rc, out = common.sh([os.path.join(bindir, 'splitprobe'), str(ctx.seed), '50'], timeout=600)
                 mm = re.search(r'MISMATCH (.*)', out)
@@ -829,6 +834,7 @@ class ConcCheck(SeqCheck):
             # second thread, by value or by reference (rustc decides, as in C16 / C03)
             self.send_bad = []
             sbin, slog = ctx.build_harness(('sendprobe',))
+            if sbin is None: ctx.violation('sendprobe does not build against the current /repo tree (tie broken)', '## cargo build failed\n' + slog[-4000:], no_input=True)
             if sbin is not None:
                 rc, out = common.sh([os.path.join(sbin, 'sendprobe')])
                 for l in out.split('\n'):
@@ -847,7 +853,9 @@ class ConcCheck(SeqCheck):
             # "safe programs are free of data races": an iterator of a LOCAL buffer (plain cells, no release/acquire) must not be able
             # to reach a second thread, by value or by reference (rustc decides, as in C16)
             bindir, log = ctx.build_harness(('sendprobe',))
-            if bindir is None: return
+            if bindir is None:
+                ctx.violation('sendprobe does not build against the current /repo tree (tie broken)', '## cargo build failed\n' + log[-4000:], no_input=True)
+                return
             rc, out = common.sh([os.path.join(bindir, 'sendprobe')])
             for l in out.split('\n'):
                 m = re.match(r'(\w+) (\w+) conc=(\d) item_send=(\d) item_sync=(\d) => send=(\d) sync=(\d)\s+# (.*)', l)
